@@ -482,6 +482,13 @@ func checkStep(r *Real, t *Table, ref *refState, op Op, obs, prev *StepObs, tips
 			if first, seen := r.Content[o.ID]; seen && !EqInts(first, o.Toks) {
 				fail("oracle", fmt.Sprintf("%s:object-modified", P), fmt.Sprintf("data object %d changed on disk: was %v, now %v", o.ID, first, o.Toks), step)
 			}
+			if what := seekCheck(t, r.Cfg, &o); what != "" {
+				key := fmt.Sprintf("%s:seek-index:%s", P, op.Kind)
+				if r.Cfg.Key == "this" {
+					key = "C14:this-key:seek-index"
+				}
+				fail("oracle", key, fmt.Sprintf("after %s object %d of b%d: %s", op, o.ID, nb.Name, what), step)
+			}
 			if what := metaCheck(t, r.Cfg, &o); what != "" {
 				key := fmt.Sprintf("%s:object-meta:%s", P, op.Kind)
 				if r.Cfg.Key == "this" && o.Min == "n" && o.Max == "n" && o.Count == len(o.Toks) {
@@ -618,6 +625,36 @@ func intersectMs(have, set []int) []int {
 		}
 	}
 	return out
+}
+
+// seekCheck: the seek index entries partition the object's values (val_off / val_cnt chain
+// from 0 to count, no empty entry) and every entry's [min,max] is exactly the key range of the
+// values it covers.
+func seekCheck(t *Table, cfg Cfg, o *ObjObs) string {
+	off := 0
+	for i, e := range o.Seek {
+		if e.Off != off || e.Cnt <= 0 || off+e.Cnt > len(o.Toks) {
+			return fmt.Sprintf("seek entry %d covers values [%d,%d) but the previous entries end at %d (object holds %d values)", i, e.Off, e.Off+e.Cnt, off, len(o.Toks))
+		}
+		lo, hi := t.Vals[o.Toks[off]].Key, t.Vals[o.Toks[off]].Key
+		for _, k := range o.Toks[off : off+e.Cnt] {
+			key := t.Vals[k].Key
+			if KeyCmp(key, lo) < 0 {
+				lo = key
+			}
+			if KeyCmp(key, hi) > 0 {
+				hi = key
+			}
+		}
+		if KeyCmp(e.Min, lo) != 0 || KeyCmp(e.Max, hi) != 0 {
+			return fmt.Sprintf("seek entry %d has min/max %s/%s but the values it covers span %s/%s", i, e.Min, e.Max, lo, hi)
+		}
+		off += e.Cnt
+	}
+	if off != len(o.Toks) {
+		return fmt.Sprintf("seek entries cover %d of the object's %d values", off, len(o.Toks))
+	}
+	return ""
 }
 
 // metaCheck: count and key range of an object equal those of the values it holds, which
